@@ -41,7 +41,10 @@ def play_of(prog, gs):
 def affine_of(v):
     """(base, offset) of a move-number value"""
     if isinstance(v, Term) and v.kind == 'affine':
-        return v.args[0], v.args[1]
+        b, k = v.args[0], v.args[1]
+        while isinstance(b, Term) and b.kind == 'affine':
+            b, k = b.args[0], k + b.args[1]
+        return b, k
     if isinstance(v, Term):
         return v, 0
     if isinstance(v, BV) and v.known():
@@ -68,7 +71,7 @@ def check_transitions(ctx, prog, I, moves_sample, status_modes):
                 if step >= 1 and kind != 'MustCompletePush':
                     acts.append(('Pass',))
                 for a in acts:
-                    gsv = inputs.play_state(prog, gold, step, kind, sq_, pc_)
+                    gsv = inputs.play_state(prog, gold, step, kind, sq_, pc_, trapped='sym')
                     mode = '%s step%d %s %s' % ('gold' if gold else 'silver', step, kind,
                                                 ('%s%s' % (G.name(a[1]), a[2])) if a[0] == 'Move' else 'Pass')
                     try:
@@ -211,7 +214,7 @@ def check_status_machine(ctx, prog, I, squares):
                     prevs.append(('PossiblePull', other, P))        # the step does not
                 prevs.append(('MustCompletePush', dst, 'Dog'))
                 for (kind, q, P) in prevs:
-                    gsv = inputs.play_state(prog, gold, 1, kind, q, P)
+                    gsv = inputs.play_state(prog, gold, 1, kind, q, P, trapped='sym')
                     r = take(I, prog, gsv, move_action(prog, s, d))
                     pl = play_of(prog, r)
                     pps = fld(prog, PP, pl, 'push_pull_state')
@@ -267,7 +270,7 @@ def check_recorded_boards(ctx, prog, I, mv):
     s, d = mv
     for gold in (True, False):
         for k in range(3):
-            gsv = inputs.play_state(prog, gold, k)
+            gsv = inputs.play_state(prog, gold, k, trapped='sym')
             r = take(I, prog, gsv, move_action(prog, s, d))
             pl = play_of(prog, r)
             prev = fld(prog, PP, pl, 'previous_piece_boards_this_move')
